@@ -233,6 +233,12 @@ impl Cqueue {
         let handle = self.selectors.lock().unwrap()[id]
             .take()
             .expect("join handler not set");
+        // wait until the coroutine is really gone: a cancel takes the waiting owner out of
+        // its park even while its cancel is disabled (the drain in drop), `join` waits only
+        // once and would report "canceled" for a coroutine whose panic is not stored yet
+        while !handle.is_done() {
+            handle.wait();
+        }
         match handle.join() {
             Ok(_) => {}
             Err(panic) => {
